@@ -468,7 +468,11 @@ def run(rep: Report, prog: Program, tier: str) -> None:
         for p in allpaths[f2.qual]:
             calls = [e for e in p.calls() if e.is_repo(":_classify")]
             rep.instance("R19.4", fn)
-            if len(calls) == 1 and calls[0].args == [("param", "err")] and calls[0].kwargs.get("use_name_heuristics") == ("const", want) and p.exit == ("return", calls[0].result):
+            pn = f2.param_names()[0]
+            kw = dict(calls[0].kwargs) if len(calls) == 1 else {}
+            flagv = kw.pop("use_name_heuristics", None)
+            # by parameter name (the engine binds positional arguments to the callee's names): the exception and the flag
+            if len(calls) == 1 and list(kw.values()) == [("param", pn)] and flagv == ("const", want) and p.exit == ("return", calls[0].result):
                 rep.ok("R19.4")
             else:
                 rep.fail("R19.4", f"{fn}|flag", f"{fn} must return _classify(err, use_name_heuristics={want})", where=f2.where(), function=f2.qual)
